@@ -1,17 +1,33 @@
 //! One module per family of properties; `run` dispatches a check, `replay` re-executes a saved case.
 
+pub mod diff;
+pub mod iso;
 pub mod seq;
+pub mod urgency;
 
-use crate::engine::{Fail, Report, Stats, Tier};
+use crate::engine::{CheckResult, Fail, Report, Stats, Tier};
 use serde_json::Value;
 
-pub const ALL: &[&str] = &["C01", "C02", "C07", "C08", "C10", "C11", "C18"];
+pub const ALL: &[&str] = &["C01", "C02", "C07", "C08", "C09", "C10", "C11", "C12", "C13", "C18"];
 
 pub fn run(id: &str, tier: Tier, seed: u64) -> Option<Report> {
     match id {
         "C01" | "C02" | "C07" | "C08" | "C10" | "C11" | "C18" => Some(seq::run(id, tier, seed)),
+        "C09" => Some(iso::run(tier, seed)),
+        "C12" => Some(urgency::run(tier, seed)),
+        "C13" => Some(diff::run(tier, seed)),
         _ => None,
     }
+}
+
+fn replay_case(prop: &str, kind: &str, case: &Value, st: &mut Stats) -> Option<CheckResult> {
+    Some(match prop {
+        "C01" | "C02" | "C07" | "C08" | "C10" | "C11" | "C18" => seq::replay(prop, kind, case, st),
+        "C09" => iso::replay(kind, case, st),
+        "C12" => urgency::replay(kind, case, st),
+        "C13" => diff::replay(kind, case, st),
+        _ => return None,
+    })
 }
 
 /// Re-execute one saved case without any generator.  Exit code 1 (and a VIOLATION line) if it
@@ -34,12 +50,14 @@ pub fn replay(file: &str) -> i32 {
     let prop = v["property"].as_str().unwrap_or("").to_string();
     let kind = v["kind"].as_str().unwrap_or("").to_string();
     let mut st = Stats::default();
-    let r = match prop.as_str() {
-        "C01" | "C02" | "C07" | "C08" | "C10" | "C11" | "C18" => seq::replay(&prop, &kind, &v["case"], &mut st),
-        _ => {
+    let r = std::panic::catch_unwind(std::panic::AssertUnwindSafe(|| replay_case(&prop, &kind, &v["case"], &mut st)));
+    let r = match r {
+        Ok(Some(r)) => r,
+        Ok(None) => {
             eprintln!("unknown property in replay file: {prop}");
             return 64;
         }
+        Err(_) => Err(Fail::Violation("panic while executing the case".into())),
     };
     match r {
         Ok(()) => {
